@@ -493,5 +493,5 @@ func gen(t *rapid.T) Case {
 }
 
 func TestStreams(t *testing.T) {
-	vfrun.Run(t, vfrun.Prop[Case]{Property: "C12", Name: "TestStreams", Gen: gen, Check: check}, vfrun.N(2400, 40000))
+	vfrun.Run(t, vfrun.Prop[Case]{Property: "C12", Name: "TestStreams", Gen: gen, Check: check}, vfrun.N(2400, 250000))
 }
